@@ -95,16 +95,17 @@ def check_case(case, steps):
     fails = []
     notes = []
     prev = []            # previous observation (list of {"xyz","cls"})
-    link = {}            # object -> set of objects it may legitimately share buffers with (derived producers)
+    link = {}            # object -> family id: objects derived from one another (subdivision, border) may share buffers
     before = {}          # step index -> coordinates of the target before that step (for inverse pairs)
     for k, (op, st) in enumerate(zip(ops, steps)):
         name = op[0]
         if not st["ok"]:
             et, em = st["err"]
             if name in EXTERNAL:
-                notes.append("step %d %s raised %s (producer outside C06's anchors; history cut)" % (k, name, et))
-            elif name in ("normalize", "fit") and prev and _span0(prev[op[1]]["xyz"]):
-                notes.append("step %d normalize of a zero-extent mesh raised %s" % (k, et))
+                notes.append("%s raised %s (producer outside C06's anchors; history cut)" % (name, et))
+            elif name in ("normalize", "fit", "to_origin") and prev and _span0(prev[op[1]]["xyz"]) \
+                    and (name != "to_origin" or not prev[op[1]]["xyz"]):
+                notes.append("%s of a zero-extent / empty mesh raised %s" % (name, et))
             else:
                 fails.append((k, name + "/raises", "step %d %s raised %s: %s" % (k, op[:2], et, em)))
             break
@@ -119,7 +120,7 @@ def check_case(case, steps):
             if i == target:
                 continue
             if cur[i]["xyz"] != prev[i]["xyz"]:
-                excuse = target is not None and (i in link.get(target, ()) or target in link.get(i, ()))
+                excuse = target is not None and link.get(i, -1 - i) == link.get(target, -1 - target)
                 # which slots moved
                 moved = [j for j, (a, b) in enumerate(zip(prev[i]["xyz"], cur[i]["xyz"])) if a != b]
                 txt = ("step %d %s on object %s changed object %d (slots %s): %s -> %s"
@@ -190,10 +191,10 @@ def check_case(case, steps):
                     j = [a for a in range(len(new["cls"])) if new["cls"].count(new["cls"][a]) > 1]
                     fails.append((k, "ring/shares-buffers", "step %d ring(open=%s): one vector stored under several vertex ids %s" % (k, op[3], j)))
             elif name in DERIVED:
-                link.setdefault(me, set()).add(op[1])
-                for s in link.get(op[1], ()):
-                    link[me].add(s)
-                bad = [j for j in shared if not any(new["cls"][j] in cur[s]["cls"] for s in link[me])]
+                link.setdefault(op[1], op[1])          # family of objects derived from one another
+                link[me] = link[op[1]]
+                fam = [s for s in range(nprev) if link.get(s, -1 - s) == link[me]]
+                bad = [j for j in shared if not any(new["cls"][j] in cur[s]["cls"] for s in fam)]
                 if dup or bad:
                     fails.append((k, name + "/shares-buffers", "step %d %s: slots share buffers inside the result (%s) or with a stranger (%s)" % (k, name, dup, bad[:4])))
                 elif shared:
@@ -210,7 +211,7 @@ def check_case(case, steps):
             if name in TRANSFORMS:
                 f = expected_map(op, pre, prev)
                 if f is None:
-                    notes.append("step %d %s of a zero-extent mesh (division by zero; outside the property)" % (k, name))
+                    notes.append("%s of a zero-extent mesh (division by zero; outside the property)" % name)
                     break
                 bad = [j for j, p in enumerate(pre) if not vclose(post[j], f(p))]
                 if bad:
